@@ -41,6 +41,13 @@ func (r *c19run) exec(op SOp) {
 		for i := 0; i <= 3+op.I%4; i++ {
 			r.forge(who, -(i & 1), -((i >> 1) & 1), 1+op.X+i)
 		}
+	case "cross":
+		// both sides send at the same moment, then everything is delivered: the two key rotations never coincide
+		for i := 0; i <= op.I%2; i++ {
+			s.Send(0, s.Text(0, 20, 0))
+			s.Send(1, s.Text(1, 20, 0))
+			s.Exec(SOp{K: "flush"})
+		}
 	case "fragflood":
 		// unauthenticated one-piece fragments with reserved, foreign or unparsable instance tags (version 3 headers)
 		own := w.P[who].C.GetOurInstanceTag()
@@ -182,7 +189,7 @@ func runC19(sc *CycleScript) *sim.Outcome {
 		for _, op := range sc.Cycle {
 			r.exec(op)
 			switch op.K {
-			case "pp", "burst":
+			case "pp", "burst", "cross":
 				accepted = true
 			case "forge", "forgealt", "garbage", "rejake", "replayflood", "errreq", "fragflood":
 				rejected = true
@@ -250,7 +257,7 @@ func init() { reg("C19cycles", runC19); reg("C19patterns", runC19) }
 
 func TestProp_C19_Cycles(t *testing.T) {
 	defer sim.MarkCompleted("C19cycles", false)
-	kinds := []string{"pp", "pp", "pp", "burst", "burst", "forge", "forge", "forgealt", "forgealt", "errreq", "fragflood", "garbage", "rejake", "rekey", "rekey", "smprun", "age", "replayflood"}
+	kinds := []string{"pp", "pp", "pp", "cross", "cross", "burst", "burst", "forge", "forge", "forgealt", "forgealt", "errreq", "fragflood", "garbage", "rejake", "rekey", "rekey", "smprun", "age", "replayflood"}
 	maxN := 10
 	if sim.Thorough() {
 		maxN = 32
@@ -300,6 +307,13 @@ func TestProp_C19_Patterns(t *testing.T) {
 		{{K: "age", W: 0}, {K: "burst", W: 1, I: 2}},
 		{{K: "age", W: 1}, {K: "burst", W: 0, I: 3}, {K: "burst", W: 0, I: 1}},
 		{{K: "age", W: 0}, {K: "age", W: 1}, {K: "burst", W: 1, I: 1}, {K: "fragflood", W: 0}},
+		// messages that cross on the wire, round after round
+		{{K: "cross", W: 0, I: 1}},
+		{{K: "cross", W: 0}, {K: "forge", W: 1, L: 2, F: 2, X: 3}},
+		// a listen-only party through repeated re-keying: it receives texts, and answers with key-exchange messages only
+		{{K: "age", W: 0}, {K: "age", W: 1}, {K: "rekey", W: 1}, {K: "burst", W: 1, I: 1}},
+		{{K: "rekey", W: 0}, {K: "burst", W: 1, I: 2}},
+		{{K: "rekey", W: 1}, {K: "burst", W: 0, I: 0}},
 		// the user stays silent after one message while the peer keeps asking for it again and re-keying
 		{{K: "errreq", W: 0}, {K: "age", W: 0}, {K: "age", W: 1}, {K: "rekey", W: 1}},
 		{{K: "errreq", W: 1}, {K: "age", W: 0}, {K: "age", W: 1}, {K: "rekey", W: 1}},
